@@ -21,7 +21,7 @@ TRUSTED = ["modelled not verified: numpy element-wise functions, CPython float a
 
 
 def correspond(ctx):
-    return X.run(ctx, "c03", ctx.n(300, 100000), gen_kwargs={"allow_repeated": True})
+    return X.run(ctx, "c03", ctx.n(300, 100000), gen_kwargs={"allow_repeated": True, "allow_revalue": True})
 
 
 def search(ctx, broken):
@@ -29,7 +29,7 @@ def search(ctx, broken):
     # (a) the reference tables the theorems were last proved for, as oracle
     try:
         r = X.run(ctx, "c03", ctx.n(1500, 20000), ref=True,
-                  gen_kwargs={"allow_repeated": True})
+                  gen_kwargs={"allow_repeated": True, "allow_revalue": True})
         for f in r["failures"]:
             f["oracle"] = "independent"
             f["kind"] = "violation"
